@@ -158,7 +158,26 @@ non-bonded parameters, type tables WITHOUT the conditional tag, the collected mo
 theorem C08_flatten_equiv_partial (fs : FS) (top : Path) (st : FlatSt) (gt : Glob)
     (hwf : wellFormed fs top = true) (hfl : flatten fs top = .ok st) (hrt : readTop fs top = .ok gt) :
     ∃ gf, readSingle st.out = .ok gf ∧ ObsEq gt gf :=
-  flatten_equiv fs top st gt hwf hfl hrt
+  (flatten_equiv fs top st gt hwf hfl hrt).2
+
+/-- The `#error` clause on include trees, in the terms of the property statement: if, going through the tree
+as the statement prescribes (`flatten`: macros defined outside conditionals, the condition enclosing each
+line), some `#error` has an active condition (`abort`), then reading the tree does not succeed.  (Well-formed
+trees; the converse — nothing else aborts a valid tree — is the oracle's `rejects-valid-tree` check.) -/
+theorem C08_error_aborts_tree_partial (fs : FS) (top : Path) (st : FlatSt)
+    (hwf : wellFormed fs top = true) (hfl : flatten fs top = .ok st) (hab : st.abort = true) :
+    ∃ e, readTop fs top = .error e := by
+  cases hrt : readTop fs top with
+  | error e => exact ⟨e, rfl⟩
+  | ok gt =>
+    have := (flatten_equiv fs top st gt hwf hfl hrt).1
+    rw [this] at hab
+    cases hab
+
+example :
+    let fs : FS := [(["t.top"], ["#define A", "#include \"i.itp\""]), (["i.itp"], ["#ifdef A", "#error A is set", "#endif"])]
+    wellFormed fs ["t.top"] = true ∧ (okOf (flatten fs ["t.top"])).map (·.abort) = some true ∧
+      errOf (readTop fs ["t.top"]) = some "error-directive" := by decide
 
 def fsGood : FS :=
   [(["run", "system.top"], ["#define FLEXIBLE", "#include \"../ff/forcefield.itp\"", "#ifdef HEAVY", "#error no heavy hydrogens",
